@@ -455,6 +455,61 @@ theorem C02_cell_update (ctr : Nat) (c : CG) (hw : wf c.hs = true) (hp : chainPa
     rw [hu]
     exact ⟨e, he, fun ρ => by rw [hv ρ]; exact hm ρ⟩
 
+/-- `Cell._update_values` keeps the cell's geometry entry well-formed and its region unchanged -/
+theorem cell_update_inv (ctr : Nat) (c : CG) (hw : wf c.hs = true) (hp : chainPads c.chain = true) :
+    wf (c.update ctr).1.hs = true ∧ chainPads (c.update ctr).1.chain = true ∧
+      ∀ ρ, (c.update ctr).1.hs.eval ρ = c.hs.eval ρ := by
+  have hr := C02_update_ready ctr c.hs hw
+  have hm := C02_update_meaning ctr c.hs hw
+  by_cases ht : c.target = (updateValues ctr c.hs).1.nodeId.getD 0
+  · obtain ⟨k1, _⟩ := closeParens_spec true c.chain (updateValues ctr c.hs).1 hr hp
+    have hu : (c.update ctr).1 =
+        ⟨(closeParens c.chain (updateValues ctr c.hs).1).1, c.target, (closeParens c.chain (updateValues ctr c.hs).1).2⟩ := by
+      simp [CG.update, ht]
+    rw [hu]
+    exact ⟨C02_ready_wf _ k1.g, (chainExt_pads k1.ext hp).1, fun ρ => (k1.same.ev ρ).trans (hm ρ)⟩
+  · have hu : (c.update ctr).1 =
+        ⟨[], (updateValues ctr c.hs).1.nodeId.getD 0, (updateValues ctr c.hs).1⟩ := by
+      simp [CG.update, ht]
+    rw [hu]
+    exact ⟨C02_ready_wf _ hr, rfl, hm⟩
+
+/-- a step on the cell: `cell.geometry = <edit>(cell.geometry)` or a write of the cell -/
+def runCellStep (st : CG × Nat) : Step → CG × Nat
+  | .edit op => (st.1.set (applyOp st.1.hs op), st.2)
+  | .write => st.1.update st.2
+
+/-- **C02_cell_history.** `C02_history_wf` at the level of the cell (`Cell.geometry` setter, `Cell._update_values` with
+    the parentheses that were read around the whole geometry): after any interleaving of edits and writes the
+    geometry part of the next written cell denotes the fold of the Boolean operations over the operands' regions. -/
+theorem C02_cell_history (c0 : CG) (n0 : Nat) (steps : List Step) (hw : wf c0.hs = true)
+    (hp : chainPads c0.chain = true) (hs : ∀ s ∈ steps, s.ok) :
+    wf (steps.foldl runCellStep (c0, n0)).1.hs = true ∧
+    (∀ ρ, (steps.foldl runCellStep (c0, n0)).1.hs.eval ρ = steps.foldl (stepSem ρ) (c0.hs.eval ρ)) ∧
+    ∃ e, denote ((steps.foldl runCellStep (c0, n0)).1.update (steps.foldl runCellStep (c0, n0)).2).1.fmt = some e ∧
+      ∀ ρ, e.eval ρ = steps.foldl (stepSem ρ) (c0.hs.eval ρ) := by
+  have key : wf (steps.foldl runCellStep (c0, n0)).1.hs = true ∧
+      chainPads (steps.foldl runCellStep (c0, n0)).1.chain = true ∧
+      (∀ ρ, (steps.foldl runCellStep (c0, n0)).1.hs.eval ρ = steps.foldl (stepSem ρ) (c0.hs.eval ρ)) := by
+    induction steps generalizing c0 n0 with
+    | nil => exact ⟨hw, hp, fun _ => rfl⟩
+    | cons s ss ih =>
+      have hs' : ∀ t ∈ ss, t.ok := fun t ht => hs t (List.mem_cons_of_mem _ ht)
+      have hs0 : s.ok := hs s (List.mem_cons_self ..)
+      cases s with
+      | edit op =>
+        obtain ⟨i1, i2, i3⟩ := ih (c0.set (applyOp c0.hs op)) n0 (wf_applyOp hw hs0) hp hs'
+        refine ⟨i1, i2, fun ρ => ?_⟩
+        rw [List.foldl_cons, List.foldl_cons, runCellStep, stepSem, ← applyOp_eval]; exact i3 ρ
+      | write =>
+        obtain ⟨u1, u2, u3⟩ := cell_update_inv n0 c0 hw hp
+        obtain ⟨i1, i2, i3⟩ := ih (c0.update n0).1 (c0.update n0).2 u1 u2 hs'
+        refine ⟨i1, i2, fun ρ => ?_⟩
+        rw [List.foldl_cons, List.foldl_cons, runCellStep, stepSem, ← u3 ρ]; exact i3 ρ
+  obtain ⟨k1, k2, k3⟩ := key
+  obtain ⟨e, he, hv⟩ := C02_cell_update (steps.foldl runCellStep (c0, n0)).2 _ k1 k2
+  exact ⟨k1, k3, e, he, fun ρ => by rw [hv ρ, k3 ρ]⟩
+
 /-! ## the constants of the source (generated: `Gen/Geometry.lean`, `Gen/Constants.lean`) -/
 
 /-- **C02_new_nodes_ready.** The texts the code gives to new nodes satisfy what `ready` asks of paddings: the operator
